@@ -1,4 +1,5 @@
-//! L2 harnesses: the real paseto-v4 source over the model crates of /verif/models.
+//! L2 harnesses: the real paseto-v3 source (RustCrypto backend) over the model crates; the `ctr`
+//! crate is the real one.
 #![allow(dead_code, unused_imports, static_mut_refs)]
 extern crate alloc;
 
@@ -14,12 +15,13 @@ mod proofs {
     use paseto_core::key::HasKey;
     use paseto_core::paserk::PkeSealingVersion;
     use paseto_core::version::{Local, Public, SealingVersion};
-    use paseto_v4::core::V4 as V;
+    use paseto_v3::core::V3 as V;
 
     fn setup() {
+        unsafe { getrandom::ASSUME_48_IS_P384_SCALAR = true }
     }
     fn ks() -> usize {
-        unsafe { chacha20::KEYSTREAM_APPLIED }
+        unsafe { aes::NBLOCKS }
     }
     fn arm(at: usize) {
         unsafe { getrandom::FAIL_AT = at }
@@ -41,10 +43,10 @@ mod proofs {
         Recipient { pk: <V as SealingVersion<Public>>::unsealing_key(&sk), sk }
     }
 
-    instantiate_tokens!(V = V, NONCE = 32, TAG = 32, SIG = 64, A = 1, KS = ks, ARM = arm, DRAWS = draws);
-    instantiate_aad!(V = V, TAG = 32);
-    instantiate_paserk!(V = V, PIE_OVER = 64, SECRET_LEN = 64, PW_PREFIX = 56, PW_OVER = 88, PW_PARAMS_OFF = 16, PW_PARAMS_LEN = 16, ARM = arm, DRAWS = draws);
-    instantiate_pke!(V = V, PKE_LEN = 96, RCPT = rcpt(), ARM = arm, DRAWS = draws);
+    instantiate_tokens!(V = V, NONCE = 32, TAG = 48, SIG = 96, A = 1, KS = ks, ARM = arm, DRAWS = draws);
+    instantiate_aad!(V = V, TAG = 48);
+    instantiate_paserk!(V = V, PIE_OVER = 80, SECRET_LEN = 48, PW_PREFIX = 52, PW_OVER = 100, PW_PARAMS_OFF = 32, PW_PARAMS_LEN = 4, ARM = arm, DRAWS = draws);
+    instantiate_pke!(V = V, PKE_LEN = 129, RCPT = rcpt(), ARM = arm, DRAWS = draws);
 
     h!(local_nonce_is_draw_, local_nonce_is_draw::<V>(32, last_draw));
     h!(public_rng_fail_closed_, public_rng_fail_closed::<V>(arm, draws));
